@@ -146,6 +146,7 @@ func exploreProb(r *core.Rec, dev int, sample interface{}, tag string, run func(
 	opts.Stop = r.Expired
 	st := choice.Explore(opts, r.ReplayChoices, func(ctl *choice.Ctl, choices []int) bool {
 		ctl.OnState = r.State
+		currentCtl = ctl
 		r.Execution()
 		for _, f := range run(choices) {
 			f.Choices = append([]int{}, choices...)
